@@ -3,7 +3,7 @@ import itertools
 import re
 
 from common import Stream
-from props.srvlib import (COMMON_META, compare, env_ops_of, first_fault_index, gen_scripts, in_progress, parse_case,
+from props.srvlib import (COMMON_META, bld_stream, compare, env_ops_of, first_fault_index, gen_scripts, in_progress, parse_case,
                           parse_trace, settled_epilogue, shrink_ops, undispatched, EPILOGUE)
 
 META = dict(COMMON_META)
@@ -220,4 +220,5 @@ def streams(ctx):
                "snapshot compared; no dispatch while paused, no unreachable listener, nothing stranded after the settling epilogue" % n),
             mk("scen", scen,
                "all %d sequences of <= %d blocks of {error, transient error, connect, Pause, Resume, turn, +250, +510, accept} that pause or back "
-               "off, on T / U / UT listeners, then a fresh client per listener and the settling epilogue" % (len(scen), depth))]
+               "off, on T / U / UT listeners, then a fresh client per listener and the settling epilogue" % (len(scen), depth)),
+            bld_stream(ctx, ("C05",), ["c", "ci", "ci", "i"], 64, 1500)]
